@@ -194,6 +194,9 @@ let show_depth (d : depth) : Stdlib.String.t =
     (Stdlib.String.concat ";" (List.map (fun x -> string_of_int (int_of_n x)) d.d_bind)) (int_of_n d.d_stk)
     (Stdlib.String.concat ";" (List.map (fun (r, v) -> Printf.sprintf "r%d=%d" (int_of_n r) (int_of_n v)) d.d_sel))
 
+let show_depth2 (d : depth2) : Stdlib.String.t =
+  let b = show_depth d.d2_base in Stdlib.String.sub b 0 (Stdlib.String.length b - 1) ^ Printf.sprintf " iter=%d)" (int_of_n d.d2_iter)
+
 let is_short_circuit = function Op_LogicalAnd | Op_LogicalOr | Op_Coalesce -> true | _ -> false
 
 let addr_of_args args = match first_addr args with Some a -> int_of_n a | None -> -1
@@ -238,7 +241,7 @@ let classify_merge ?(flags = 0) (cb : codeblock) (e : edge) (pc : int) (have : d
       else if not bind_eq then "merge-binding-depth-mismatch"
       else "merge-stack-depth-mismatch"
 
-let stuck_reason (cb : codeblock) (pc : n) (d : depth) : Stdlib.String.t =
+let stuck_reason0 (cb : codeblock) (pc : n) (d : depth) : Stdlib.String.t =
   match find_instr cb pc with
   | None -> "target-not-an-instruction"
   | Some i ->
@@ -257,6 +260,21 @@ let stuck_reason (cb : codeblock) (pc : n) (d : depth) : Stdlib.String.t =
                  (match exc_succs cb i e d with
                   | None -> "handler-assumes-more-environments"
                   | Some _ -> "stuck-unknown"))
+
+let stuck_reason (cb : codeblock) (pc : n) (d : depth2) : Stdlib.String.t =
+  match find_instr cb pc with
+  | Some i when operands_ok cb i && iter_norm i.i_op d.d2_iter = None -> "iterator-stack-underflow"
+  | _ -> stuck_reason0 cb pc d.d2_base
+
+let base_eq (a : depth) (b : depth) =
+  int_of_n a.d_env = int_of_n b.d_env && int_of_n a.d_stk = int_of_n b.d_stk && list_eq a.d_bind b.d_bind
+
+(* merges of the extended machine: when the three old depths agree and only frame.iterators differs, a path left an
+   iterator loop without closing its record (or closed the wrong one) *)
+let classify_merge2 ?(flags = 0) (cb : codeblock) (e : edge) (pc : int) (have : depth2) (want : depth2) : Stdlib.String.t =
+  if base_eq have.d2_base want.d2_base && int_of_n have.d2_iter <> int_of_n want.d2_iter then
+    (match e with EExc _ -> "exc-edge-iterator-residue" | _ -> "iterator-stack-depth-merge")
+  else classify_merge ~flags cb e pc have.d2_base want.d2_base
 
 let edge_str = function
   | EEntry -> "entry" | ENormal f -> Printf.sprintf "normal-from-%d" (int_of_n f) | EExc f -> Printf.sprintf "exc-from-%d" (int_of_n f)
@@ -277,14 +295,15 @@ let rec sel_eq a b = match a, b with
   | (r, v) :: a, (r', v') :: b -> int_of_n r = int_of_n r' && int_of_n v = int_of_n v' && sel_eq a b
   | _ -> false
 
-let depth_eq (a : depth) (b : depth) =
+let depth_eq0 (a : depth) (b : depth) =
   int_of_n a.d_env = int_of_n b.d_env && int_of_n a.d_stk = int_of_n b.d_stk && list_eq a.d_bind b.d_bind && sel_eq a.d_sel b.d_sel
+let depth_eq (a : depth2) (b : depth2) = depth_eq0 a.d2_base b.d2_base && int_of_n a.d2_iter = int_of_n b.d2_iter
 
-let lenient_infer (cb : codeblock) : (edge * n * depth * depth) list * (n * depth * int list) list * (Stdlib.String.t * Stdlib.String.t) list =
-  let a : (int, depth list) Hashtbl.t = Hashtbl.create 64 in
+let lenient_infer (cb : codeblock) : (edge * n * depth2 * depth2) list * (n * depth2 * int list) list * (Stdlib.String.t * Stdlib.String.t) list =
+  let a : (int, depth2 list) Hashtbl.t = Hashtbl.create 64 in
   let get pc = try Hashtbl.find a pc with Not_found -> [] in
   let merges = ref [] and stucks = ref [] and residues = ref [] in
-  let work = ref [ (((EEntry, N0), entry_depth cb), []) ] in
+  let work = ref [ (((EEntry, N0), entry_depth2 cb), []) ] in
   let fuel = ref (64 * int_of_n cb.cb_bytes + 64) in
   while !work <> [] && !fuel > 0 do
     decr fuel;
@@ -295,11 +314,11 @@ let lenient_infer (cb : codeblock) : (edge * n * depth * depth) list * (n * dept
          let path' = let p = int_of_n pc :: path in if List.length p > 80 then List.filteri (fun i _ -> i < 80) p else p in
          let here = get (int_of_n pc) in
          if List.exists (depth_eq d) here then ()
-         else (match List.find_opt (fun d0 -> sel_eq d0.d_sel d.d_sel) here with
+         else (match List.find_opt (fun d0 -> sel_eq d0.d2_base.d_sel d.d2_base.d_sel) here with
              | Some d0 -> merges := (e, pc, d0, d) :: !merges
              | None ->
                  Hashtbl.replace a (int_of_n pc) (d :: here);
-                 (match succs_tagged cb pc d with
+                 (match succs_tagged2 cb pc d with
                   | None -> stucks := (pc, d, path') :: !stucks
                   | Some l ->
                       let fix ((e', pc'), d') =
@@ -319,23 +338,39 @@ let lenient_infer (cb : codeblock) : (edge * n * depth * depth) list * (n * dept
                                        | l ->
                                            let assoc r sel = List.fold_left (fun acc (r', v) -> if int_of_n r' = int_of_n r then Some (int_of_n v) else acc) None sel in
                                            let compatible x =
-                                             List.for_all (fun (r, v) -> match assoc r d.d_sel with Some v' -> v' = int_of_n v | None -> true) x.d_sel in
-                                           let score x = List.length (List.filter (fun (r, _) -> assoc r d.d_sel <> None) x.d_sel) in
-                                           let ds = (match List.find_opt (fun x -> sel_eq x.d_sel d.d_sel) l with
+                                             List.for_all (fun (r, v) -> match assoc r d.d2_base.d_sel with Some v' -> v' = int_of_n v | None -> true) x.d2_base.d_sel in
+                                           let score x = List.length (List.filter (fun (r, _) -> assoc r d.d2_base.d_sel <> None) x.d2_base.d_sel) in
+                                           let ds = (match List.find_opt (fun x -> sel_eq x.d2_base.d_sel d.d2_base.d_sel) l with
                                                | Some x -> x
                                                | None ->
                                                    (match List.sort (fun a b -> compare (score b) (score a)) (List.filter compatible l) with
                                                     | x :: _ -> x
                                                     | [] -> List.hd (List.rev l))) in
-                                           let sb = not (list_eq ds.d_bind d'.d_bind) and ss = int_of_n ds.d_stk <> int_of_n d'.d_stk in
+                                           let sb = not (list_eq ds.d2_base.d_bind d'.d2_base.d_bind) and ss = int_of_n ds.d2_base.d_stk <> int_of_n d'.d2_base.d_stk in
                                            if sb || ss then begin
                                              let cls = if sb then "exc-edge-binding-residue" else "exc-edge-stack-residue" in
                                              if List.length !residues < 12 then
                                                residues := (cls, Printf.sprintf "pc=%d %s throws at %s; handler %d..%d lands at %d whose range starts at %s"
-                                                              (int_of_n from) (opname i.i_op) (show_depth d) (int_of_n h.h_start) (int_of_n h.h_end)
-                                                              (int_of_n h.h_end) (show_depth ds)) :: !residues
+                                                              (int_of_n from) (opname i.i_op) (show_depth2 d) (int_of_n h.h_start) (int_of_n h.h_end)
+                                                              (int_of_n h.h_end) (show_depth2 ds)) :: !residues
                                            end;
-                                           ((e', pc'), { d' with d_bind = ds.d_bind; d_stk = ds.d_stk }))
+                                           (* frame.iterators: Vm::handle_exception_at leaves it alone and the model is exact, so no
+                                              leniency -- except for the one pattern diagnosed as a class of its own: an opcode that
+                                              pops its record before calling into user code (and drops it when the call throws) inside
+                                              a handler whose close code assumes the record of the range start is still on top *)
+                                           let self_pop = (match i.i_op with
+                                               | Op_IteratorNext | Op_IteratorValue | Op_IteratorUpdateResult | Op_IteratorFinishAsyncNext
+                                               | Op_PushIteratorToArray -> true | _ -> false) in
+                                           let it' =
+                                             if self_pop && int_of_n d'.d2_iter + 1 = int_of_n ds.d2_iter then begin
+                                               if List.length !residues < 12 then
+                                                 residues := ("exc-edge-iterator-residue",
+                                                              Printf.sprintf "pc=%d %s drops its record when the call throws (iter=%d); handler %d..%d lands at %d, its close code assumes iter=%d"
+                                                                (int_of_n from) (opname i.i_op) (int_of_n d'.d2_iter) (int_of_n h.h_start) (int_of_n h.h_end)
+                                                                (int_of_n h.h_end) (int_of_n ds.d2_iter)) :: !residues;
+                                               ds.d2_iter end
+                                             else d'.d2_iter in
+                                           ((e', pc'), { d2_base = { d'.d2_base with d_bind = ds.d2_base.d_bind; d_stk = ds.d2_base.d_stk }; d2_iter = it' }))
                                   | None -> ((e', pc'), d'))
                              | None -> ((e', pc'), d'))
                         | _ -> ((e', pc'), d') in
@@ -413,7 +448,7 @@ let duplicate_selector_lint (cb : codeblock) : Stdlib.String.t list =
       | _ -> []) (instrs cb)
 
 (* ---------- per block verification ---------- *)
-type vblk = { b : blk; cb : codeblock; ok : bool; annot : depth list PositiveMap.t; resume_pcs : (int, unit) Hashtbl.t }
+type vblk = { b : blk; cb : codeblock; ok : bool; annot : depth2 list PositiveMap.t; resume_pcs : (int, unit) Hashtbl.t }
 
 let verify_block (b : blk) : vblk =
   let cb = mk_codeblock b in
@@ -429,8 +464,8 @@ let verify_block (b : blk) : vblk =
   List.iter (fun m -> add "instruction-does-not-match-signature" m) (List.rev b.decode_errs);
   if List.length b.consts <> b.nconsts then add "dump-inconsistent" "const count";
   if List.length b.hs <> b.nhandlers then add "dump-inconsistent" "handler count";
-  let (annot, ierrs) = infer_full cb in
-  let v = b.decode_errs = [] && verify cb in
+  let (annot, ierrs) = infer_full2 cb in
+  let v = b.decode_errs = [] && verify2 cb in
   (* structural diagnostics *)
   if not (wf_block cb) then begin
     List.iter (fun i -> if not (operands_ok cb i) then
@@ -442,11 +477,11 @@ let verify_block (b : blk) : vblk =
     if b.bytes = 0 then add "empty-bytecode" ""
   end;
   let strict = List.map (function
-      | ErrMerge (e, pc, have, want) ->
-          (classify_merge ~flags:b.flags cb e (int_of_n pc) have want,
-           Printf.sprintf "pc=%d edge=%s have=%s arriving=%s" (int_of_n pc) (edge_str e) (show_depth have) (show_depth want))
-      | ErrStuck (pc, d) -> (stuck_reason cb pc d, Printf.sprintf "pc=%d at %s" (int_of_n pc) (show_depth d))
-      | ErrFuel -> ("verifier-out-of-fuel", "")) (List.rev ierrs) in
+      | ErrMerge2 (e, pc, have, want) ->
+          (classify_merge2 ~flags:b.flags cb e (int_of_n pc) have want,
+           Printf.sprintf "pc=%d edge=%s have=%s arriving=%s" (int_of_n pc) (edge_str e) (show_depth2 have) (show_depth2 want))
+      | ErrStuck2 (pc, d) -> (stuck_reason cb pc d, Printf.sprintf "pc=%d at %s" (int_of_n pc) (show_depth2 d))
+      | ErrFuel2 -> ("verifier-out-of-fuel", "")) (List.rev ierrs) in
   if strict <> [] then begin
     (* the strict pass failed: diagnose with the lenient pass (exception edges carry the depths of the range start, as a
        per-handler depth would), which reports the residue itself and every defect that is not a consequence of it *)
@@ -455,9 +490,9 @@ let verify_block (b : blk) : vblk =
     else begin
       List.iter (fun (c, t) -> add c t) residues;
       List.iter (fun (e, pc, have, want) ->
-          add (classify_merge ~flags:b.flags cb e (int_of_n pc) have want)
-            (Printf.sprintf "pc=%d edge=%s have=%s arriving=%s" (int_of_n pc) (edge_str e) (show_depth have) (show_depth want))) merges;
-      List.iter (fun (pc, d, path) -> add (stuck_reason cb pc d) (Printf.sprintf "pc=%d at %s path(latest first)=%s" (int_of_n pc) (show_depth d)
+          add (classify_merge2 ~flags:b.flags cb e (int_of_n pc) have want)
+            (Printf.sprintf "pc=%d edge=%s have=%s arriving=%s" (int_of_n pc) (edge_str e) (show_depth2 have) (show_depth2 want))) merges;
+      List.iter (fun (pc, d, path) -> add (stuck_reason cb pc d) (Printf.sprintf "pc=%d at %s path(latest first)=%s" (int_of_n pc) (show_depth2 d)
                                                                      (Stdlib.String.concat "<" (List.map string_of_int path)))) stucks
     end
   end;
@@ -476,7 +511,7 @@ let verify_block (b : blk) : vblk =
   { b; cb; ok = v; annot; resume_pcs }
 
 (* ---------- dynamic validation of the abstract machine against the VM's depth log ---------- *)
-type drec = { dblock : int; frames : int; pc : int; op : int; stk : int; env : int; nb : int }
+type drec = { dblock : int; frames : int; pc : int; op : int; stk : int; env : int; nb : int; it : int (* -1: not in the log *) }
 
 let rec replicate k x = if k <= 0 then [] else x :: replicate (k - 1) x
 
@@ -497,31 +532,34 @@ let validate (blocks : (int, vblk) Hashtbl.t) (log : drec list) : unit =
        | Some vb ->
            (* 1. absolute comparison with the verifier's annotation *)
            (if vb.ok then
-              match aget vb.annot (n_of_int r.pc) with
+              match aget2 vb.annot (n_of_int r.pc) with
               | [] ->
                   incr ach; incr abad;
                   if List.length !report < 20 then
                     report := Printf.sprintf "%d annotation pc=%d executed but not reachable for the verifier" r.dblock r.pc :: !report
               | ds ->
                   incr ach;
-                  let fits (d : depth) =
-                    int_of_n d.d_env = r.env && List.length d.d_bind = r.nb && (!exc_seen || int_of_n d.d_stk = r.stk) in
+                  let fits (d2 : depth2) =
+                    let d = d2.d2_base in
+                    int_of_n d.d_env = r.env && List.length d.d_bind = r.nb && (!exc_seen || int_of_n d.d_stk = r.stk) &&
+                    (r.it < 0 || int_of_n d2.d2_iter = r.it) in
                   if not (List.exists fits ds) then begin
                     incr abad;
                     if List.length !report < 20 then
                       report := Printf.sprintf "%d annotation pc=%d %s observed (env=%d bind=%d stk=%d)" r.dblock r.pc
-                          (Stdlib.String.concat "|" (List.map show_depth ds)) r.env r.nb r.stk :: !report
+                          (Stdlib.String.concat "|" (List.map show_depth2 ds)) r.env r.nb r.stk :: !report
                   end);
            (* 2. the transition from the previous record of the same frame *)
            (match Hashtbl.find_opt last r.frames with
             | Some p when p.dblock = r.dblock ->
                 incr pairs;
                 let cb = vb.cb in
-                let d = { d_env = n_of_int p.env; d_bind = replicate p.nb N0; d_stk = n_of_int p.stk; d_sel = [] } in
+                let d = { d2_base = { d_env = n_of_int p.env; d_bind = replicate p.nb N0; d_stk = n_of_int p.stk; d_sel = [] };
+                          d2_iter = n_of_int (if p.it < 0 then 1000 else p.it) } in
                 let pop = opcode_of_byte (n_of_int p.op) in
                 let entry_like () =
                   (r.pc = 0 && r.env = int_of_n cb.cb_entry_env && r.nb = 0) || Hashtbl.mem vb.resume_pcs r.pc in
-                (match (if p.stk < 0 || p.env < 0 then None else succs_tagged cb (n_of_int p.pc) d) with
+                (match (if p.stk < 0 || p.env < 0 then None else succs_tagged2 cb (n_of_int p.pc) d) with
                  | None ->
                      (* the VM executed a state in which the abstract machine is stuck (or already below the register
                         file): in a block the verifier rejected this is a dynamic witness of the static diagnosis; in an
@@ -539,10 +577,11 @@ let validate (blocks : (int, vblk) Hashtbl.t) (log : drec list) : unit =
                  | Some succs ->
                      let susp = is_suspend pop in
                      let m = List.find_opt (fun ((e, pc'), d') ->
-                         int_of_n pc' = r.pc && int_of_n d'.d_env = r.env && List.length d'.d_bind = r.nb &&
+                         int_of_n pc' = r.pc && int_of_n d'.d2_base.d_env = r.env && List.length d'.d2_base.d_bind = r.nb &&
+                         (p.it < 0 || r.it < 0 || int_of_n d'.d2_iter = r.it) &&
                          (match e with
                           | EExc _ -> true
-                          | _ -> (susp && !exc_seen) || int_of_n d'.d_stk = r.stk)) succs in
+                          | _ -> (susp && !exc_seen) || int_of_n d'.d2_base.d_stk = r.stk)) succs in
                      (match m with
                       | Some ((EExc _, _), _) -> incr okc; exc_seen := true; bump cov_exc (opname pop)
                       | Some _ -> incr okc; bump cov_norm (opname pop)
@@ -553,7 +592,7 @@ let validate (blocks : (int, vblk) Hashtbl.t) (log : drec list) : unit =
                             if List.length !report < 20 then
                               report := Printf.sprintf "%d transition pc=%d %s (env=%d bind=%d stk=%d) -> pc=%d (env=%d bind=%d stk=%d) not among [%s]"
                                   r.dblock p.pc (opname pop) p.env p.nb p.stk r.pc r.env r.nb r.stk
-                                  (Stdlib.String.concat " " (List.map (fun ((e, pc'), d') -> Printf.sprintf "%s->%d%s" (edge_str e) (int_of_n pc') (show_depth d')) succs))
+                                  (Stdlib.String.concat " " (List.map (fun ((e, pc'), d') -> Printf.sprintf "%s->%d%s" (edge_str e) (int_of_n pc') (show_depth2 d')) succs))
                                 :: !report
                           end))
             | _ -> ()));
@@ -586,9 +625,10 @@ let () =
        let n = Stdlib.String.length line in
        if n >= 2 && line.[0] = 'd' && line.[1] = ' ' then begin
          match split_ws line with
-         | [_; b; f; pc; op; s; e; nb] ->
+         | _ :: b :: f :: pc :: op :: s :: e :: nb :: rest ->
              log := { dblock = int_of_string b; frames = int_of_string f; pc = int_of_string pc; op = int_of_string op;
-                      stk = int_of_string s; env = int_of_string e; nb = int_of_string nb } :: !log
+                      stk = int_of_string s; env = int_of_string e; nb = int_of_string nb;
+                      it = (match rest with x :: _ -> (try int_of_string x with _ -> -1) | [] -> -1) } :: !log
          | _ -> ()
        end
        else if n >= 4 && Stdlib.String.sub line 0 4 = "ins " then begin
